@@ -675,6 +675,22 @@ def own_setup(ctx: Ctx) -> RuleResult:
                         r.violate(f"{f.short}: the DAG's results are re-bound from an execution of a graph that is not setup-only", f.loc(n),
                                   "results of non-setup nodes would persist in the DAG instance and be pruned from later calls",
                                   norm_src(n))
+                    # the map that is adopted is everything the scheduler was started with plus what the setup-only graph produced:
+                    # it must have been started with the DAG's own map and nothing else (cached values, call arguments)
+                    if is_sched:
+                        rs_ = next((k.value for k in v.keywords if k.arg == "results"), None)
+                        if rs_ is not None:
+                            own_map = norm_src(rs_) == "self.results"
+                            if not own_map and isinstance(rs_, ast.Name):
+                                ds_ = [d for d in ctx.reaching_defs(f, rs_.id, n) if isinstance(d, ast.Assign)]
+                                own_map = bool(ds_) and all(norm_src(d.value) == "self.results" for d in ds_) and not ctx.entry_reaches(f, rs_.id, n)
+                            r.ob(own_map, {"in": f.short, "the adopted execution starts from": norm_src(rs_)[:80]})
+                            if not own_map:
+                                r.violate(f"{f.short}: the execution whose whole result map becomes the DAG's results does not start from the "
+                                          f"DAG's own map", f.loc(n),
+                                          "whatever the caller put into the starting map (results read from a cache file, values of call "
+                                          "arguments) is stored in the DAG instance for good: later calls find those ids already computed, "
+                                          "skip the nodes and ignore the arguments they are given", norm_src(rs_)[:120])
     r.require(n_rebind >= 2, f"re-bindings of the DAG's results found: {n_rebind} (expected the setup path of both flavours)")
     # the setup-only filter
     from .gt import _pre_setup_filters
@@ -1212,6 +1228,20 @@ def own_liveresults(ctx: Ctx) -> RuleResult:
                     r.violate(f"{mth.short}: the executor stores a reference to the DAG's results ({norm_src(n)})", mth.loc(n),
                               "dag.setup() re-binds dag.results to a new mapping; the executor created before keeps the old one and executes "
                               "the already set-up setup nodes again (silently)", norm_src(n))
+                # ... nor a copy of them (with or without cached entries merged in): a snapshot taken when the executor is created misses
+                # every setup result the DAG acquires before the executor is called
+                if isinstance(n, ast.Assign) and any(isinstance(t, ast.Attribute) and dotted(t.value) == "self" for t in n.targets) \
+                        and norm_src(n.value) != "self.dag.results":
+                    vals = [n.value]
+                    if isinstance(n.value, ast.Name):
+                        vals = [d.value for d in ctx.reaching_defs(mth, n.value.id, n) if isinstance(d, ast.Assign)]
+                    snap = next((v_ for v_ in vals if any(norm_src(x) == "self.dag.results" for x in ast.walk(v_))), None)
+                    if snap is not None:
+                        r.ob(False, {"in": mth.short, "stores": norm_src(n)[:100]})
+                        r.violate(f"{mth.short}: the executor keeps a snapshot derived from the DAG's results ({norm_src(n)[:80]})", mth.loc(n),
+                                  "a setup node that runs on the DAG after the snapshot was taken (dag.setup(), executor.setup(), a plain "
+                                  "call) is missing from it: the executor's call runs that setup node a second time and hands its nodes "
+                                  "another object than the one the DAG holds", norm_src(snap)[:120])
                 if isinstance(n, ast.Return) and n.value is not None and norm_src(n.value) == "self.dag.results":
                     n_live += 1
     r.ob(n_live >= 1, {"live reads of the DAG's results in the executors": n_live})
